@@ -1,5 +1,5 @@
 PROP = {
-    "regen_files": ["GenDeleg.v"],
+    "regen_files": ["GenDeleg.v", "GenPipe.v"],
     "num": 8,
     "runs": [{"tag": "c08", "bin": "c08"}],
     "mismatch_is_failing": True,
@@ -7,7 +7,7 @@ PROP = {
     "nontrivial": lambda case, obs: case.split()[3] != "0",
     "manifest": {
         "design_ref": "DESIGN.md section 7, C08",
-        "text": "Theorems in Coq over the hub model of generate/map/zip/fold/Clone/Default (every receiver/argument form is an instance of one pipeline model differing only in ownership): for every length the function is called exactly once per index in ascending order, result i = f i (row i), fold = the left fold, and results and call order are identical for every form. Tie to the code: extracted model vs the real operations in all forms with recording closures (call order compared as sequences), for element types with and without drop glue (different internal branches).",
+        "text": "Theorems in Coq over the hub model of generate/map/zip/fold/Clone/Default (every receiver/argument form is an instance of one pipeline model differing only in ownership): for every length the function is called exactly once per index in ascending order, result i = f i (row i), fold = the left fold, and results and call order are identical for every form. Tie to the code: extracted model vs the real operations in all forms with recording closures (call order compared as sequences), for element types with and without drop glue (different internal branches). T3 tie: the bodies of map / fold / inverted_zip / inverted_zip2 / generate (src/lib.rs) and of the boxed generate (src/impl_alloc.rs) are regenerated from the source on every run as pipeline programs (coq/gen/GenPipe.v: sources iterated in lockstep with their ArrayConsumer / builder position variables, the closure statement by statement, the sink) and executed by an operational interpreter (coq/theories/Pipe.v) that only knows what the Drop impls do with the positions as they are; coq/theories/PipeTie.v proves, for every input, caller function and panic point, that they give exactly the list-level meaning the theorems are about (C08_source_*).",
         "technique": "machine-checked proof in Coq (all lengths, all forms) + extracted-model vs implementation differential correspondence of call logs",
     },
 }
